@@ -197,18 +197,20 @@ pub fn probes(names: usize) -> Vec<(String, Box<dyn Fn(Ex) -> Ex>)> {
 	v.push(("type".into(), Box::new(|o| std_call("type", vec![o]))));
 	// history: the object is read first (which runs and remembers its assertions) and extended afterwards; the
 	// extension overrides `a` with a boolean, which the invariant of assertion kind 4 forbids
-	v.push((
-		"local b = o; [type of b.a if present, (b + {a: true}).a, (b {a: true}).a]".into(),
-		Box::new(|o| {
-			let a = NAMES[0];
-			let b = || var("b");
-			let pre = Ex::If(bx(std_call("objectHasAll", vec![b(), s(a)])), bx(std_call("type", vec![Ex::Dot(bx(b()), a.to_owned())])), Some(bx(s("absent"))));
-			let over = Ex::Obj(vec![field(a, false, Vis::Normal, Ex::True)]);
-			let plus = Ex::Dot(bx(Ex::Bin(BinOp::Add, bx(b()), bx(over.clone()))), a.to_owned());
-			let ext = Ex::Dot(bx(Ex::ObjExt(bx(b()), bx(over))), a.to_owned());
-			Ex::Local(vec![Bind::Var("b".into(), o)], bx(Ex::Arr(vec![pre, plus, ext])))
-		}),
-	));
+	// (one probe per way of extending: a failure of one would hide a wrong value of the other)
+	for sugar in [false, true] {
+		v.push((
+			format!("local b = o; [type of b.a if present, {}]", if sugar { "(b {a: true}).a" } else { "(b + {a: true}).a" }),
+			Box::new(move |o| {
+				let a = NAMES[0];
+				let b = || var("b");
+				let pre = Ex::If(bx(std_call("objectHasAll", vec![b(), s(a)])), bx(std_call("type", vec![Ex::Dot(bx(b()), a.to_owned())])), Some(bx(s("absent"))));
+				let over = Ex::Obj(vec![field(a, false, Vis::Normal, Ex::True)]);
+				let extended = if sugar { Ex::ObjExt(bx(b()), bx(over)) } else { Ex::Bin(BinOp::Add, bx(b()), bx(over)) };
+				Ex::Local(vec![Bind::Var("b".into(), o)], bx(Ex::Arr(vec![pre, Ex::Dot(bx(extended), a.to_owned())])))
+			}),
+		));
+	}
 	// one mixin value (with an object-level local and a super reference) applied twice in one chain
 	v.push((
 		"local m = {local l = 1, p: (if 'p' in super then super.p else 0) + l}; (o + m + m).p".into(),
